@@ -1,9 +1,9 @@
-import PgBifrost.Proofs.Rabbit
+import PgBifrost.Proofs.RabbitConfirmed
 /-!
 # C13 — RabbitMQ: written ⇒ the broker positively confirmed every message (property theorems)
 
-About `PgBifrost.RabbitConfirm`: `Mode.asIs` = `rabbitmq/transporter/transporter.go` as it is today,
-`Mode.fixed` = after the rabbitmq hunks of /root/proto/planned-fixes.patch.  Both are tied to their code by the
+About `PgBifrost.RabbitConfirm`: `Mode.asIs` = `rabbitmq/transporter/transporter.go` before the repair of F7/F8,
+`Mode.fixed` = after the rabbitmq hunks of /root/proto/planned-fixes.patch, i.e. the file as it is now in /repo.  Both are tied to their code by the
 `rabbit` / `rabbitfixed` correspondence components.  The adversary (broker + goroutine scheduler) is the token
 list; theorems quantify over all token lists.
 -/
@@ -90,5 +90,166 @@ theorem rabbit_failed_attempt_drops_channel (st : St) (msgs msgs' : List Nat) (t
     (h : (attempt .fixed st msgs toks).2.2.2 = .retry msgs') :
     (attempt .fixed st msgs toks).1.fieldsSet = false :=
   attempt_fixed_retry_fields st msgs msgs' toks h
+
+/-! ## the repaired code: written ⇒ every message positively confirmed (main theorem of C13)
+
+`Clean st` (Proofs/RabbitConfirmed): if the worker holds a channel the broker has not closed, nothing is pending
+on it and `channelConfirms` equals its delivery-tag counter.  It holds initially and after every batch. -/
+
+theorem rabbit_clean_init : Clean {} := clean_init
+
+/-- `Clean` is preserved by a batch of the repaired worker, whatever the script and the outcome -/
+theorem rabbit_clean_preserved (budget : Nat) (st : St) (n : Nat) (toks : List Tok) (hc : Clean st) :
+    Clean (batch .fixed budget st n toks).1 := batch_fixed_clean budget st n toks hc
+
+/-- **written ⇒ all confirmed** (repaired code).  For every retry budget, every `Clean` state, every batch size
+and every broker/scheduler script: if the batch is reported written, then every message `i < n` has, in the event
+log OF THIS BATCH, a publish accepted on some channel `ch` with delivery tag `tag`, and LATER in that log the
+worker consumed the positive confirmation of that very channel and tag. -/
+theorem rabbit_written_all_confirmed (budget : Nat) (st : St) (n : Nat) (toks : List Tok) (hc : Clean st)
+    (hw : (batch .fixed budget st n toks).2.2 = .written) :
+    ∀ i, i < n → ∃ ch tag pre mid post,
+      (batch .fixed budget st n toks).2.1 = pre ++ Ev.pub ch tag i .ack :: (mid ++ Ev.conf ch tag true :: post) :=
+  (batch_spec .fixed budget st n toks hc (Or.inl rfl)).1 hw
+
+/-- the same over any SEQUENCE of batches (each with its own script) from any `Clean` state, in particular from
+the initial state: every batch of the run that is reported written has all its messages confirmed in its own log;
+and the repaired worker never hangs, panics or starves -/
+theorem rabbit_written_all_confirmed_run (budget : Nat) (st : St) (hc : Clean st) (bs : List (Nat × List Tok))
+    (b : Nat × List Tok) (r : List Ev × Outcome) (hmem : (b, r) ∈ bs.zip (run .fixed budget st bs)) :
+    (r.2 = .written → ∀ i, i < b.1 → ConfirmedAt r.1 i) ∧ (r.2 = .written ∨ r.2 = .exhausted ∨ r.2 = .dead) :=
+  run_fixed_spec budget bs st hc b r hmem
+
+theorem rabbit_run_length (mode : Mode) (budget : Nat) (st : St) (bs : List (Nat × List Tok)) :
+    (run mode budget st bs).length = bs.length := run_length mode budget bs st
+
+/-- `ConfirmedAt` is exactly what the runtime monitor evaluates (`Spec.Rabbit.confirmedIn`) -/
+theorem rabbit_confirmedIn_iff (evs : List Ev) (i : Nat) : confirmedIn evs i = true ↔ ConfirmedAt evs i :=
+  confirmedIn_iff evs i
+
+/-- the model's own histories under the repaired code always pass the monitor's check: `writtenOk` holds and
+`check` raises no verdict (no unconfirmed `written`, no `hang`, no `starve`) -/
+theorem rabbit_spec_ok_of_fixed (budget : Nat) (st : St) (n : Nat) (toks : List Tok) (hc : Clean st)
+    (prior : List Ev) :
+    writtenOk (batch .fixed budget st n toks).2.1 n (batch .fixed budget st n toks).2.2 = true ∧
+    (check prior (batch .fixed budget st n toks).2.1 n (batch .fixed budget st n toks).2.2).isNone = true := by
+  have hall : (batch .fixed budget st n toks).2.2 = .written →
+      allConfirmed (batch .fixed budget st n toks).2.1 n = true :=
+    fun hw => (allConfirmed_iff _ _).2 (rabbit_written_all_confirmed budget st n toks hc hw)
+  rcases batch_fixed_outcome budget st n toks hc with h | h | h
+  · simp [writtenOk, check, h, hall h]
+  · simp [writtenOk, check, h]
+  · simp [writtenOk, check, h]
+
+/-- non-vacuity of `rabbit_written_all_confirmed`: (1) a nack followed by acks, (2) a publish error mid-batch,
+(3) the channel closed when the wait is entered (closeHandler runs at once) — each from the `Clean` initial state,
+each ends `.written` after a retry on a new channel, and the theorem applies -/
+example : (batch .fixed 3 {} 3 [⟨.ack, false⟩, ⟨.nack, false⟩, ⟨.ack, false⟩]).2.2 = .written ∧
+    allConfirmed (batch .fixed 3 {} 3 [⟨.ack, false⟩, ⟨.nack, false⟩, ⟨.ack, false⟩]).2.1 3 = true ∧
+    (batch .fixed 3 {} 3 [⟨.ack, false⟩, ⟨.nack, false⟩, ⟨.ack, false⟩]).2.1.contains (.conf 1 2 false) = true := by
+  decide
+example := rabbit_written_all_confirmed 3 {} 3 [⟨.ack, false⟩, ⟨.nack, false⟩, ⟨.ack, false⟩] clean_init (by decide)
+example : (batch .fixed 3 {} 3 [⟨.ack, false⟩, ⟨.err, false⟩]).2.2 = .written ∧
+    allConfirmed (batch .fixed 3 {} 3 [⟨.ack, false⟩, ⟨.err, false⟩]).2.1 3 = true ∧
+    (batch .fixed 3 {} 3 [⟨.ack, false⟩, ⟨.err, false⟩]).2.1.contains (.pub 1 0 1 .err) = true := by decide
+example := rabbit_written_all_confirmed 3 {} 3 [⟨.ack, false⟩, ⟨.err, false⟩] clean_init (by decide)
+example : (batch .fixed 3 {} 2 [⟨.ack, false⟩, ⟨.ack, false⟩, ⟨.closeCh, true⟩]).2.2 = .written ∧
+    allConfirmed (batch .fixed 3 {} 2 [⟨.ack, false⟩, ⟨.ack, false⟩, ⟨.closeCh, true⟩]).2.1 2 = true ∧
+    (batch .fixed 3 {} 2 [⟨.ack, false⟩, ⟨.ack, false⟩, ⟨.closeCh, true⟩]).2.1.take 6 =
+      [.opened 1, .pub 1 1 0 .ack, .pub 1 2 1 .ack, .wait, .close 1, .handler 1] := by decide
+example := rabbit_written_all_confirmed 3 {} 2 [⟨.ack, false⟩, ⟨.ack, false⟩, ⟨.closeCh, true⟩] clean_init (by decide)
+/-- (the code before the repair wedges on script (3): F8) -/
+example : (batch .asIs 3 {} 2 [⟨.ack, false⟩, ⟨.ack, false⟩, ⟨.closeCh, true⟩]).2.2 = .hang := by decide
+/-- a sequence: the nack batch, then a second batch on the channel the retry left open (`Clean` carried over) -/
+example : (run .fixed 3 {} [(3, [⟨.ack, false⟩, ⟨.nack, false⟩, ⟨.ack, false⟩]), (2, [])]).map (·.2) =
+    [.written, .written] := by decide
+
+/-- the conclusion of `rabbit_written_all_confirmed` is FALSE for the code before the repair on the nack script of
+`rabbit_stale_confirm_witness` (from the same `Clean` initial state, outcome `.written`): message 0 has no
+publish whose positive confirmation is consumed afterwards -/
+example : (batch .asIs 3 {} 2 [⟨.nack, false⟩, ⟨.ack, false⟩]).2.2 = .written ∧
+    ¬ (∀ i, i < 2 → ∃ ch tag pre mid post, (batch .asIs 3 {} 2 [⟨.nack, false⟩, ⟨.ack, false⟩]).2.1 =
+        pre ++ Ev.pub ch tag i .ack :: (mid ++ Ev.conf ch tag true :: post)) := by
+  refine ⟨by decide, fun h => ?_⟩
+  have h0 : confirmedIn (batch .asIs 3 {} 2 [⟨.nack, false⟩, ⟨.ack, false⟩]).2.1 0 = true :=
+    (confirmedIn_iff _ 0).2 (h 0 (by decide))
+  exact absurd h0 (by decide)
+
+/-- **a failed attempt retries exactly the unconfirmed suffix, on a fresh channel** (repaired code).  If an
+attempt on `msgs`, started in a `Clean` state, fails (nack, publish error, channel/connection closed at any point,
+channel cannot be opened) with `msgs'` left for the retry, then
+* `msgs' = msgs.drop k` for some `k ≤ msgs.length` — this is `messagesSlice[len-remaining:]` with
+  `remaining = len - k ≤ len` (non-empty if `msgs` is) — and the `k` dropped messages each have a publish and a
+  later positive confirmation of that publish in this attempt's log;
+* none of the kept messages has one (for pairwise distinct `msgs`, as the batch indices are);
+* the worker has dropped its channel (`t.channel = nil`), so for EVERY continuation script the next attempt either
+  fails to open a channel (connection broken; nothing published, `msgs'` kept) or opens the NEW channel
+  `nextId`, publishes only on it, and publishes the messages of `msgs'` in order — a prefix of them if
+  `sendMessages` fails, all of them if the attempt succeeds. -/
+theorem rabbit_retry_republishes_unconfirmed (st : St) (msgs msgs' : List Nat) (toks : List Tok) (hc : Clean st)
+    (h : (attempt .fixed st msgs toks).2.2.2 = .retry msgs') :
+    (∃ k, k ≤ msgs.length ∧ msgs' = msgs.drop k ∧ (msgs ≠ [] → msgs' ≠ []) ∧
+      ∀ m ∈ msgs.take k, ConfirmedAt (attempt .fixed st msgs toks).2.2.1 m) ∧
+    (msgs.Nodup → ∀ m ∈ msgs', ¬ ConfirmedAt (attempt .fixed st msgs toks).2.2.1 m) ∧
+    (attempt .fixed st msgs toks).1.fieldsSet = false ∧
+    ∀ toks2 : List Tok,
+      ((attempt .fixed st msgs toks).1.connBroken = true →
+        (attempt .fixed (attempt .fixed st msgs toks).1 msgs' toks2).2.2.1 = [.openFail] ∧
+        (attempt .fixed (attempt .fixed st msgs toks).1 msgs' toks2).2.2.2 = .retry msgs') ∧
+      ((attempt .fixed st msgs toks).1.connBroken = false →
+        ∃ rest, (attempt .fixed (attempt .fixed st msgs toks).1 msgs' toks2).2.2.1 =
+            .opened (attempt .fixed st msgs toks).1.nextId :: rest ∧
+          (∀ ch tag m o, Ev.pub ch tag m o ∈ rest → ch = (attempt .fixed st msgs toks).1.nextId) ∧
+          pubMsgs rest <+: msgs' ∧
+          ((attempt .fixed (attempt .fixed st msgs toks).1 msgs' toks2).2.2.2 = .ok → pubMsgs rest = msgs')) := by
+  obtain ⟨_, ⟨k, h1, h2, h3, h4⟩, h5⟩ := (attempt_spec .fixed st msgs toks hc (Or.inl rfl)).2.2.1 msgs' h
+  have hf := attempt_fixed_retry_fields st msgs msgs' toks h
+  refine ⟨⟨k, h1, h2, h3, fun m hm => (confirmedAt_iff_confd _ _).2 (h4 m hm)⟩,
+    fun hn m hm hcf => h5 hn m hm ((confirmedAt_iff_confd _ _).1 hcf), hf, fun toks2 => ?_⟩
+  exact attempt_fresh_pubs .fixed _ msgs' toks2 hf
+
+/-- the slice expression `messagesSlice[len-remaining:]` cannot go out of range (the model's `.panic`), and the
+wait never blocks (`hang`, `starve`): an attempt of the repaired code from a `Clean` state ends `ok` or `retry` -/
+theorem rabbit_remaining_le_len (st : St) (msgs : List Nat) (toks : List Tok) (hc : Clean st) :
+    (attempt .fixed st msgs toks).2.2.2 ≠ .panic ∧ (attempt .fixed st msgs toks).2.2.2 ≠ .hang ∧
+    (attempt .fixed st msgs toks).2.2.2 ≠ .starve := by
+  obtain ⟨_, _, _, h4, h5⟩ := attempt_spec .fixed st msgs toks hc (Or.inl rfl)
+  exact ⟨fun h => absurd (h4 (Or.inr h)) (by decide), fun h => absurd (h4 (Or.inl h)) (by decide), h5⟩
+
+/-- instance: 3 messages, the broker nacks the second: the first is confirmed, `[1, 2]` are retried on channel 2 -/
+example : (attempt .fixed {} [0, 1, 2] [⟨.ack, false⟩, ⟨.nack, false⟩, ⟨.ack, false⟩]).2.2.2 = .retry [1, 2] ∧
+    (attempt .fixed {} [0, 1, 2] [⟨.ack, false⟩, ⟨.nack, false⟩, ⟨.ack, false⟩]).1.nextId = 2 ∧
+    pubMsgs (attempt .fixed (attempt .fixed {} [0, 1, 2] [⟨.ack, false⟩, ⟨.nack, false⟩, ⟨.ack, false⟩]).1
+      [1, 2] []).2.2.1 = [1, 2] := by decide
+example := rabbit_retry_republishes_unconfirmed {} [0, 1, 2] [1, 2] [⟨.ack, false⟩, ⟨.nack, false⟩, ⟨.ack, false⟩]
+  clean_init (by decide)
+
+/-! ## the code before the repair: the defect needs a nack or a publish error -/
+
+/-- FULL STATEMENT (false, see `rabbit_stale_confirm_witness` / `_puberr_witness`): without the hypothesis on the
+script.  PROVED: under a script WITHOUT negative confirmation and WITHOUT publish error (channel / connection
+closes at any point and any closeHandler schedule are allowed — those lead to `hang`/`panic`, F8, not to a false
+`written`), from a `Clean` state, written ⇒ all confirmed also holds for the code before the repair.  Both
+conjuncts of the hypothesis are needed (the two witnesses use one `nack` / one `err` and nothing else). -/
+theorem rabbit_written_all_confirmed_asIs_partial (budget : Nat) (st : St) (n : Nat) (toks : List Tok)
+    (hc : Clean st) (hs : ∀ t ∈ toks, t.p ≠ .nack ∧ t.p ≠ .err)
+    (hw : (batch .asIs budget st n toks).2.2 = .written) :
+    ∀ i, i < n → ∃ ch tag pre mid post,
+      (batch .asIs budget st n toks).2.1 = pre ++ Ev.pub ch tag i .ack :: (mid ++ Ev.conf ch tag true :: post) :=
+  (batch_spec .asIs budget st n toks hc (Or.inr hs)).1 hw
+
+/-- non-vacuity: a script with a connection close when the wait is entered (no nack, no publish error), written
+after a failed `conn.Channel()` and a retry; the hypotheses of the partial theorem hold -/
+example : (batch .asIs 3 {} 2 [⟨.ack, false⟩, ⟨.ack, false⟩, ⟨.closeConn, false⟩]).2.2 = .written ∧
+    (batch .asIs 3 {} 2 [⟨.ack, false⟩, ⟨.ack, false⟩, ⟨.closeConn, false⟩]).2.1.contains .openFail = true := by
+  decide
+example := rabbit_written_all_confirmed_asIs_partial 3 {} 2 [⟨.ack, false⟩, ⟨.ack, false⟩, ⟨.closeConn, false⟩]
+  clean_init (by decide) (by decide)
+/-- `Clean` is needed too: after the nack shape the next all-ack batch is reported early
+(`rabbit_stale_confirm_next_batch_witness`); the state it starts from is not `Clean` -/
+example : ¬ Clean (batch .asIs 3 {} 2 [⟨.nack, false⟩, ⟨.ack, false⟩]).1 := by
+  intro h
+  have := (h (by decide) (by decide)).2
+  exact absurd this (by decide)
 
 end PgBifrost.Props.C13
